@@ -163,7 +163,11 @@ impl<M: Manager> UnreadyObject<'_, M> {
 impl<M: Manager> Drop for UnreadyObject<'_, M> {
     fn drop(&mut self) {
         if let Some(mut inner) = self.inner.take() {
+            #[cfg(deadpool_verif)]
+            crate::verif::point("unready_drop:enter", self.pool as *const PoolInner<M> as usize);
             self.pool.slots.lock().unwrap().size -= 1;
+            #[cfg(deadpool_verif)]
+            crate::verif::point("unready_drop:size_dec", self.pool as *const PoolInner<M> as usize);
             self.pool.manager.detach(&mut inner.obj);
         }
     }
@@ -323,6 +327,8 @@ impl<M: Manager, W: From<Object<M>>> Pool<M, W> {
         let users_guard = DropGuard(|| {
             let _ = self.inner.users.fetch_sub(1, Ordering::Relaxed);
         });
+        #[cfg(deadpool_verif)]
+        crate::verif::point("get:users_inc", Arc::as_ptr(&self.inner) as usize);
 
         let non_blocking = match timeouts.wait {
             Some(t) => t.as_nanos() == 0,
@@ -350,11 +356,15 @@ impl<M: Manager, W: From<Object<M>>> Pool<M, W> {
             .await?
         };
 
+        #[cfg(deadpool_verif)]
+        crate::verif::point("get:permit", Arc::as_ptr(&self.inner) as usize);
         let inner_obj = loop {
             let inner_obj = match self.inner.config.queue_mode {
                 QueueMode::Fifo => self.inner.slots.lock().unwrap().vec.pop_front(),
                 QueueMode::Lifo => self.inner.slots.lock().unwrap().vec.pop_back(),
             };
+            #[cfg(deadpool_verif)]
+            crate::verif::point("get:popped", Arc::as_ptr(&self.inner) as usize);
             let inner_obj = if let Some(inner_obj) = inner_obj {
                 self.try_recycle(timeouts, inner_obj).await?
             } else {
@@ -365,8 +375,14 @@ impl<M: Manager, W: From<Object<M>>> Pool<M, W> {
             }
         };
 
+        #[cfg(deadpool_verif)]
+        crate::verif::point("get:before_forget", Arc::as_ptr(&self.inner) as usize);
         users_guard.disarm();
+        #[cfg(deadpool_verif)]
+        crate::verif::point("get:disarmed", Arc::as_ptr(&self.inner) as usize);
         permit.forget();
+        #[cfg(deadpool_verif)]
+        crate::verif::point("get:forgot", Arc::as_ptr(&self.inner) as usize);
 
         Ok(Object {
             inner: Some(inner_obj),
@@ -411,6 +427,8 @@ impl<M: Manager, W: From<Object<M>>> Pool<M, W> {
             return Ok(None);
         }
 
+        #[cfg(deadpool_verif)]
+        crate::verif::point("recycle:before_metrics", Arc::as_ptr(&self.inner) as usize);
         inner.metrics.recycle_count += 1;
         #[cfg(not(target_arch = "wasm32"))]
         {
@@ -439,7 +457,11 @@ impl<M: Manager, W: From<Object<M>>> Pool<M, W> {
             pool: &self.inner,
         };
 
+        #[cfg(deadpool_verif)]
+        crate::verif::point("create:created", Arc::as_ptr(&self.inner) as usize);
         self.inner.slots.lock().unwrap().size += 1;
+        #[cfg(deadpool_verif)]
+        crate::verif::point("create:size_inc", Arc::as_ptr(&self.inner) as usize);
 
         // Apply post_create hooks
         if let Err(e) = self
@@ -463,6 +485,8 @@ impl<M: Manager, W: From<Object<M>>> Pool<M, W> {
      * always reports a `max_size` of 0 for closed pools.
      */
     pub fn resize(&self, max_size: usize) {
+        #[cfg(deadpool_verif)]
+        crate::verif::point("resize:enter", Arc::as_ptr(&self.inner) as usize);
         if self.inner.semaphore.is_closed() {
             return;
         }
@@ -494,6 +518,11 @@ impl<M: Manager, W: From<Object<M>>> Pool<M, W> {
             slots.vec.reserve_exact(additional);
             self.inner.semaphore.add_permits(additional);
         }
+        #[cfg(deadpool_verif)]
+        {
+            drop(slots);
+            crate::verif::point("resize:exit", Arc::as_ptr(&self.inner) as usize);
+        }
     }
 
     /// Retains only the objects specified by the given function.
@@ -523,6 +552,8 @@ impl<M: Manager, W: From<Object<M>>> Pool<M, W> {
         &self,
         mut predicate: impl FnMut(&M::Type, Metrics) -> bool,
     ) -> RetainResult<M::Type> {
+        #[cfg(deadpool_verif)]
+        crate::verif::point("retain:enter", Arc::as_ptr(&self.inner) as usize);
         let mut removed = Vec::with_capacity(self.status().size);
         let mut guard = self.inner.slots.lock().unwrap();
         let mut i = 0;
@@ -558,7 +589,11 @@ impl<M: Manager, W: From<Object<M>>> Pool<M, W> {
     /// This operation resizes the pool to 0.
     pub fn close(&self) {
         self.resize(0);
+        #[cfg(deadpool_verif)]
+        crate::verif::point("close:resized", Arc::as_ptr(&self.inner) as usize);
         self.inner.semaphore.close();
+        #[cfg(deadpool_verif)]
+        crate::verif::point("close:exit", Arc::as_ptr(&self.inner) as usize);
     }
 
     /// Indicates whether this [`Pool`] has been closed.
@@ -588,6 +623,30 @@ impl<M: Manager, W: From<Object<M>>> Pool<M, W> {
     #[must_use]
     pub fn manager(&self) -> &M {
         &self.inner.manager
+    }
+
+    /// Snapshot of the pool internals (verification builds only).
+    #[cfg(deadpool_verif)]
+    #[must_use]
+    pub fn verif_snapshot(&self) -> crate::verif::ManagedSnapshot {
+        let slots = self.inner.slots.lock().unwrap();
+        crate::verif::ManagedSnapshot {
+            permits: self.inner.semaphore.available_permits(),
+            size: slots.size,
+            max_size: slots.max_size,
+            idle: slots.vec.len(),
+            users: self.inner.users.load(Ordering::Relaxed),
+            closed: self.inner.semaphore.is_closed(),
+        }
+    }
+
+    /// Visits the idle objects in queue order (verification builds only).
+    #[cfg(deadpool_verif)]
+    pub fn verif_idle(&self, mut f: impl FnMut(&M::Type, &Metrics)) {
+        let slots = self.inner.slots.lock().unwrap();
+        for obj in slots.vec.iter() {
+            f(&obj.obj, &obj.metrics);
+        }
     }
 }
 
@@ -632,24 +691,36 @@ where
 
 impl<M: Manager> PoolInner<M> {
     fn return_object(&self, mut inner: ObjectInner<M>) {
+        #[cfg(deadpool_verif)]
+        crate::verif::point("return:enter", self as *const Self as usize);
         let _ = self.users.fetch_sub(1, Ordering::Relaxed);
+        #[cfg(deadpool_verif)]
+        crate::verif::point("return:users_dec", self as *const Self as usize);
         let mut slots = self.slots.lock().unwrap();
         if slots.size <= slots.max_size {
             slots.vec.push_back(inner);
             drop(slots);
+            #[cfg(deadpool_verif)]
+            crate::verif::point("return:pushed", self as *const Self as usize);
             self.semaphore.add_permits(1);
         } else {
             slots.size -= 1;
             drop(slots);
+            #[cfg(deadpool_verif)]
+            crate::verif::point("return:surplus", self as *const Self as usize);
             self.manager.detach(&mut inner.obj);
         }
     }
     fn detach_object(&self, obj: &mut M::Type) {
+        #[cfg(deadpool_verif)]
+        crate::verif::point("detach:enter", self as *const Self as usize);
         let _ = self.users.fetch_sub(1, Ordering::Relaxed);
         let mut slots = self.slots.lock().unwrap();
         let add_permits = slots.size <= slots.max_size;
         slots.size -= 1;
         drop(slots);
+        #[cfg(deadpool_verif)]
+        crate::verif::point("detach:unlocked", self as *const Self as usize);
         if add_permits {
             self.semaphore.add_permits(1);
         }
